@@ -94,6 +94,15 @@ def gen_spec(rng, n_classes, order, unknown=False):
         for j in range(i):
             if rng.random() < 0.4:
                 e["inputs"][f"i{j}"] = {"component": top[j]["name"], "port": rng.choice(["o", "y", "out"] + ([2, 3] if numeric else []))}
+    if not numeric and rng.random() < 0.3:
+        # valid component names that contain commas or surrounding blanks (a name is any non-empty string)
+        pool = ["bank,1", "bank", "1", "a, b", " x", "y ", "p,q,r", "q"]
+        rng.shuffle(pool)
+        ren = {e["name"]: pool[i] for i, e in enumerate(top) if i < len(pool)}
+        for e in top:
+            e["name"] = ren.get(e["name"], e["name"])
+            for q in e["inputs"].values():
+                q["component"] = ren.get(q["component"], q["component"])
     if unknown:
         top[rng.randrange(len(top))]["type"] = rng.choice(["gm0.Nope", "nomodule.K0", "gm0.K99"])
     tops = [str(e["name"]) for e in top]
@@ -180,6 +189,22 @@ def run(tier, seed, drv):
                 res.violate(V("wrong-wiring", f"scheduler wiring {sel['inv_conns']} declared {declared}", site="build_simulation"), case)
             if sel["inv_conns"] != rep["inv_conns"] or sel["inv_keys"] != rep["inv_keys"]:
                 res.diverge(f"wiring from configs: impl {sel['inv_conns']} / {sel['inv_keys']} model {rep['inv_conns']} / {rep['inv_keys']}", case)
+        # the same requests through the command line
+        for req, sel in zip(spec["selections"], out.get("cli_selections", [])):
+            if "worker_error" in sel:
+                res.notes.append("cli selections not exercised: " + sel["worker_error"])
+                break
+            res.count("cli-selection")
+            if req is not None and any(r not in tops for r in req):
+                if "error" not in sel:
+                    res.violate(V("unknown-component-accepted", f"tickit components {req}: accepted: {sel}", site="cli.components"), case)
+                continue
+            if "error" in sel:
+                res.violate(V("selection-rejected", f"tickit components {req or ''}: {sel['error']} (the configuration has {tops})", site="cli.components"), case)
+                continue
+            want = sorted(tops if not req else [t for t in tops if t in req])
+            if sel["components"] != want or sel.get("scheduler"):
+                res.violate(V("wrong-components", f"tickit components {req or ''}: simulation has {sel['components']} (scheduler: {sel.get('scheduler')}) expected {want} and no scheduler", site="cli.components"), case)
     res.rule = (f"generated config classes (2..{ncls}, most with the identical signature x:int, spread over two modules), every module import order plus "
                 "lazy import by tag only, entries nested to depth 3 inside SystemSimulation with random wiring, 5 component selections each (all, one, "
                 "alternate, with an unknown name, none) and entries with unknown tags; each case in a fresh interpreter through read_configs, "
